@@ -52,7 +52,7 @@ def make_original(kind):
 
 
 ACTIONS = ['noop', 'inner', 'off', 'on', 'nest', 'raise-new',
-           'raise-new-base']
+           'raise-new-base', 'reraise-saved-and-swallow']
 
 
 def run_action(X, ctxt, action, state):
@@ -81,6 +81,14 @@ def run_action(X, ctxt, action, state):
         new = OSError('new failure')
         state[1] = new
         raise new
+    elif action == 'reraise-saved-and-swallow':
+        # a cleanup helper re-raises the saved exception object and the
+        # handler swallows it: frames of the handler body get attached to
+        # the object and must be dropped again by the final re-raise
+        try:
+            raise ctxt.value
+        except BaseException:
+            pass
     elif action == 'raise-new-base':
         new = Interrupt('new interrupt')
         state[1] = new
@@ -126,6 +134,10 @@ def save_and_reraise_for_every_body():
         tb = outcome.__traceback__
         check('srr/original-traceback-preserved',
               tb[:len(tb_at_capture)] == tb_at_capture)
+        # exactly the original chain plus the re-raise itself: nothing the
+        # handler body did to the object in between survives
+        check('srr/traceback-is-the-original-plus-the-reraise-only',
+              len(tb) == len(tb_at_capture) + 1)
         check('srr/nothing-logged', len(logger.errors) == 0)
     else:
         check('srr/nothing-raised-when-switched-off', outcome is None)
@@ -141,7 +153,8 @@ def capture_and_force_reraise_contracts():
     scenario = pick('scenario', ['capture-nothing-checked',
                                  'capture-nothing-unchecked',
                                  'force-without-capture',
-                                 'capture-then-force'])
+                                 'capture-then-force',
+                                 'capture-refused-capture-force'])
     raised = None
     if scenario == 'capture-nothing-checked':
         try:
@@ -161,6 +174,25 @@ def capture_and_force_reraise_contracts():
             raised = e
         check('force/runtimeerror-when-nothing-captured',
               isinstance(raised, RuntimeError))
+    elif scenario == 'capture-refused-capture-force':
+        orig = make_original(pick('exception_kind', ['plain', 'needs-args']))
+        try:
+            raise orig
+        except Exception:
+            ctxt.capture()
+        refused = None
+        try:
+            ctxt.capture()          # nothing active any more: refused
+        except RuntimeError as e:
+            refused = e
+        check('capture/refused-when-nothing-active', refused is not None)
+        check('capture/refused-capture-keeps-the-earlier-one',
+              ctxt.value is orig)
+        try:
+            ctxt.force_reraise()
+        except BaseException as e:
+            raised = e
+        check('force/still-raises-the-captured-object', raised is orig)
     else:
         orig = make_original(pick('exception_kind', ['plain', 'needs-args']))
         try:
@@ -191,18 +223,21 @@ def capture_and_force_reraise_contracts():
        assumes=['A-RAISE'])
 def exception_filter_contract():
     X = load(EX)
-    accept = fresh_bool('predicate_accepts')
+    # the predicate may answer with any truthy / falsy value
+    answer = pick('predicate_answer', [True, False, 1, 0, 'yes', '', [1],
+                                       [], None])
+    accept = bool(answer)
     seen = []
 
     def pred(ex):
         seen.append(ex)
-        return accept
+        return answer
 
     class Holder:
         @X.exception_filter
         def method_filter(self, ex):
             seen.append((self, ex))
-            return accept
+            return answer
 
     style = pick('style', ['object', 'decorated-function', 'bound-method'])
     if style == 'object':
@@ -211,7 +246,7 @@ def exception_filter_contract():
         @X.exception_filter
         def flt(ex):
             seen.append(ex)
-            return accept
+            return answer
     else:
         holder = Holder()
         flt = holder.method_filter
@@ -350,7 +385,8 @@ def real_interpreter_family():
         return [(f.filename, f.lineno, f.name)
                 for f in traceback.extract_tb(tb)]
     acts = ['noop', 'inner', 'off', 'on', 'nest', 'raise-new',
-            'raise-new-base', 'force-and-catch']
+            'raise-new-base', 'reraise-saved-and-swallow',
+            'force-and-catch']
     kinds = ['plain', 'needs-args', 'chained', 'base-exception',
              'pre-raised']
     for n in (0, 1, 2, 3):
@@ -410,6 +446,9 @@ def real_interpreter_family():
                             # the innermost end
                             check('srr-family/original-traceback-kept',
                                   got[-len(tb0):] == tb0, detail=d)
+                            check('srr-family/no-frames-of-the-handler-body',
+                                  not any(f[2] == 'run_action'
+                                          for f in got), detail=d)
                     elif not flag:
                         check('srr-family/nothing-raised-when-off',
                               outcome is None, detail=d)
@@ -420,21 +459,22 @@ def real_interpreter_family():
                               'force_reraise', outcome is orig,
                               detail=(kind, type(outcome).__name__))
     # exception_filter
-    for accept in (True, False):
+    for answer in (True, False, 1, 0, 'yes', '', [0], None):
+        accept = bool(answer)
         seen = []
 
         def pred(ex):
             seen.append(ex)
-            return accept
+            return answer
 
         class Holder:
             @X.exception_filter
             def m(self, ex):
-                return accept
+                return answer
 
         @X.exception_filter
         def decorated(ex):
-            return accept
+            return answer
         for flt in (X.exception_filter(pred), decorated, Holder().m):
             for exc in (ValueError('v'), NeedsArgs(1, 2)):
                 outcome = None
